@@ -243,6 +243,24 @@ FIXED = [
  ('C04', 'nested-conditional-expression-native', '97e2f5a',
   "a conditional expression nested in the test or a branch of another one stayed native (visit_IfExp did not visit children)",
   'C04MATRIX'),
+ ('C08', 'nested-function-parameters-bound-in-defining-scope', 'ce79a1b',
+  "parameters of a nested def or lambda were also listed as bound (and as parameters) in the scope that defines it: visit_arg ran for the defining scope during the annotations-only pass",
+  {'kind': 'static', 'src': '''def fn1(p, q=1):
+    def fn2(x, *va, ko=p, **kw):
+        return x + ko
+    a = lambda lp, lq=q: lp + lq
+    return fn2(a(p))
+'''}),
+ ('C08', 'nonlocal-name-not-free-in-intermediate-function', 'b6b962b',
+  "a name declared nonlocal two levels below its owner was not a free variable (read - bound) of the function in between; CPython lists it among that function's free variables",
+  {'kind': 'static', 'src': '''def fn1(p):
+    def fn2():
+        def fn3():
+            nonlocal p
+            p = 2
+        return fn3
+    return fn2
+'''}),
 ]
 
 OPEN = [
